@@ -29,3 +29,4 @@ PROP = {
     "assumptions": STD_ASSUME + ["coherence tolerance 1e-11 absolute; 1e-3 per CDF value when the underlying incomplete gamma call has shape parameter > 100 (the accuracy property C06 states for that branch)",
                                  "KDE data lie mostly inside the window and manual bandwidths are between 2% and 50% of the window (the table has 150 points)"],
 }
+PROP["level_text"] += ' Quantile_Gauss is judged in x down to the last representable probabilities; the binned likelihoods must leave their argument lists as they were (an explicit empty background list is reused across binnings); KDE windows sit at offsets up to 1e9 widths or next to the sample.'
